@@ -107,6 +107,10 @@ def obligations(tier):
                                 bounds=f"shape {s}, 1 note: symbolic tick/column/player/keysound(or none), kind case split over {KINDS}"))
         for o in OPTIONS:
             obs.append(dict(name=f"time_notes(0, 0, 0, 1)/2notes/{o}", func="ob_time_notes", args=((0, 0, 0, 1), 6, 2, o), budget_s=b, bounds="one warp, 2 notes"))
+        # three warps in every arrangement (nested, overlapping, touching)
+        obs.append(dict(name="hittable(0, 0, 0, 3)/G8", func="ob_hittable", args=((0, 0, 0, 3), 8), budget_s=b, bounds="three warps, ticks 0..8"))
+        obs.append(dict(name="hittable(0, 1, 0, 3)/G5", func="ob_hittable", args=((0, 1, 0, 3), 5), budget_s=b, bounds="three warps and a stop, ticks 0..5"))
+        obs.append(dict(name="time_notes(0, 0, 0, 3)/1note/TAP_TO_FAKE", func="ob_time_notes", args=((0, 0, 0, 3), 6, 1, "TAP_TO_FAKE"), budget_s=b, bounds="three warps, 1 note"))
     else:
         G, b = 48, 1500
         for s in tc.shapes(4):
@@ -116,6 +120,10 @@ def obligations(tier):
         for s in [x for x in tc.shapes(3) if x[3] >= 1]:
             for o in OPTIONS:
                 obs.append(dict(name=f"time_notes{s}/1note/{o}", func="ob_time_notes", args=(s, 12, 1, o), budget_s=b, bounds=f"shape {s}, 1 note"))
+        for s3, g in (((0, 0, 0, 3), 24), ((0, 1, 0, 3), 10), ((0, 0, 1, 3), 10), ((1, 0, 0, 3), 10)):
+            obs.append(dict(name=f"hittable{s3}/G{g}", func="ob_hittable", args=(s3, g), budget_s=b, bounds=f"shape {s3}: three warps, ticks 0..{g}"))
+        for o in OPTIONS:
+            obs.append(dict(name=f"time_notes(0, 0, 0, 3)/1note/{o}", func="ob_time_notes", args=((0, 0, 0, 3), 10, 1, o), budget_s=b, bounds="three warps, 1 note"))
         for s in [(0, 0, 0, 1), (0, 1, 0, 1), (0, 0, 1, 1), (1, 0, 0, 1)]:
             for o in OPTIONS:
                 obs.append(dict(name=f"time_notes{s}/2notes/{o}", func="ob_time_notes", args=(s, 8, 2, o), budget_s=b, bounds=f"shape {s}, 2 notes"))
